@@ -18,11 +18,11 @@ INFO = {
     'rule': ('cases = (listing file or truncated copy, sequence of navigation actions): actions first, last, next, prev, index=i for i in [-N, N-1], '
              'time=t (each exact time, between every pair of times on both sides of the midpoint, before the first, after the last), step=s '
              'likewise, history(fixed selection). All sequences up to the stated length, plus random sequences of length 5..60. Truncated copies '
-             '(cut before the k-th result set) give 1..N times; blanked copies (listings whose tables print incomplete rows: all numbers re-drawn, trailing fields of complete rows blanked in every other result set) give rows with a blank field at one time and a number there at another. Distinct = distinct (file, sequence); non-trivial = the index changes at least twice.'),
+             '(cut before the k-th result set) give 1..N times; blanked copies (listings whose tables print incomplete rows: all numbers re-drawn, trailing fields of complete rows blanked in every other result set) give rows with a blank field at one time and a number there at another; redrawn copies (listings whose result sets do not all print the same tables: all numbers re-drawn) make every table differ between times. Distinct = distinct (file, sequence); non-trivial = the index changes at least twice.'),
     'require': {
-        'quick': {'counters': {'actions_checked': 20000, 'sequences': 4000, 'files': 15, 'fresh_snapshots': 40, 'truncated_copies': 5, 'blanked_copies': 2, 'rows_blank_at_one_time_printed_at_another': 4},
+        'quick': {'counters': {'actions_checked': 20000, 'sequences': 4000, 'files': 15, 'fresh_snapshots': 40, 'truncated_copies': 5, 'blanked_copies': 2, 'rows_blank_at_one_time_printed_at_another': 4, 'redrawn_copies': 1},
                   'seen': {'action_kinds': 8, 'simulators': 6}, 'nontrivial': 2000},
-        'thorough': {'counters': {'actions_checked': 1000000, 'sequences': 350000, 'files': 20, 'fresh_snapshots': 100, 'truncated_copies': 20, 'blanked_copies': 2, 'rows_blank_at_one_time_printed_at_another': 4},
+        'thorough': {'counters': {'actions_checked': 1000000, 'sequences': 350000, 'files': 20, 'fresh_snapshots': 100, 'truncated_copies': 20, 'blanked_copies': 2, 'rows_blank_at_one_time_printed_at_another': 4, 'redrawn_copies': 1},
                      'seen': {'action_kinds': 8, 'simulators': 6}, 'nontrivial': 250000},
     },
     'exhaustive': {'quick': True, 'thorough': True},
@@ -356,6 +356,30 @@ def blanked_copy(ctx, path, label):
     return fn
 
 
+def redrawn_copy(ctx, path, label):
+    """A copy of a multi-time listing whose result sets do not all print the same tables (a table absent from the first
+    result set is one the reader has no set-up for and has to step over): every printed number re-drawn, so that no table
+    shows the same numbers at two times and a table left over from another result set cannot pass for the right one.
+    Own scan of the text; None where every result set prints the same tables."""
+    import random
+    from vf.props import c05
+    from vf.oracle import listing_ref as LR
+    ref = LR.parse_listing(path)
+    if len(ref) < 2:
+        return None
+    sets = [tuple(sorted(set(t.name for t in res['tables']))) for res in ref]
+    if len(set(sets)) < 2:
+        return None
+    lines = c05.read_lines(path)
+    n = c05.make_variant(ctx, random.Random(c05.variant_seed(ctx, label, 'digits', 11)), lines, ref, 'digits', 1.0)
+    if n == 0:
+        return None
+    fn = c05.write_variant(ctx, path, lines, 'redrawn')
+    c05.selfcheck(ctx, fn, ref)
+    ctx.count('tables_not_printed_in_every_result_set', len(set(x for s_ in sets for x in s_)) - len(set(sets[0]).intersection(*map(set, sets[1:]))))
+    return fn
+
+
 def run_file(ctx, path, label, spec, expect_times=None):
     rng = ctx.rng
     with ctx.guard({'file': label}, where='open') as g:
@@ -433,6 +457,11 @@ def run_shard(ctx, spec):
             for fn, label, k in copies:
                 ctx.count('truncated_copies')
                 run_file(ctx, fn, label, dict(spec, depth=2 if spec['depth'] else None, random=20), expect_times=k)
+        with ctx.guard({'file': rel + '[redrawn numbers]'}, where='redrawn-copy') as g:
+            fn = redrawn_copy(ctx, path, rel)
+        if g.raised is None and fn is not None:
+            ctx.count('redrawn_copies')
+            run_file(ctx, fn, rel + '[redrawn numbers]', dict(spec, depth=2 if spec['depth'] else None, random=20))
         with ctx.guard({'file': rel + '[blanked trailing fields]'}, where='blanked-copy') as g:
             fn = blanked_copy(ctx, path, rel)
         if g.raised is None and fn is not None:
@@ -446,6 +475,8 @@ def replay(ctx, case):
     path = os.path.join(REPO, rel)
     if '[blanked' in label:
         path = blanked_copy(ctx, path, rel)
+    elif '[redrawn' in label:
+        path = redrawn_copy(ctx, path, rel)
     elif '[' in label:
         k = int(label.split('first ')[1].split()[0])
         copies = dict((kk, fn) for fn, lab, kk in truncated_copies(ctx, path, rel))
